@@ -555,9 +555,15 @@ func (idx *SelectorAndNamedPortIndex) UpdateEndpointOrSet(
 		newEndpointData.labels = labels
 	}
 	if len(parentIDs) > 0 {
-		parents := make([]*npParentData, len(parentIDs))
-		for i, pID := range parentIDs {
-			parents[i] = idx.getOrCreateParent(pID)
+		parents := make([]*npParentData, 0, len(parentIDs))
+		for _, pID := range parentIDs {
+			parent := idx.getOrCreateParent(pID)
+			if slices.Contains(parents, parent) {
+				// Listing a parent twice adds nothing (the first occurrence wins for
+				// inheritance) and the clean-up code assumes one entry per parent.
+				continue
+			}
+			parents = append(parents, parent)
 		}
 		newEndpointData.parents = parents
 	}
